@@ -569,6 +569,28 @@ def run_shipped(ns, ctx, spec):
             ctx.violation("invalid_public_point_accepted:other_curve_key:ecdh", {"curve": cv.name, "other": oc.name}, rp)
         except Exception as e:
             ctx.exc(e)
+        # the ECDH object re-targeted to the other curve while it still holds the key of this one (set_curve / attribute
+        # assignment): whichever way the mixed state is reached, no secret may come out of a scalar and a point of two curves
+        for route in ("set_curve", "assign_private_key", "assign_public_key"):
+            ctx.ev()
+            ctx.bin("ecdh_object_holding_keys_of_two_curves")
+            try:
+                sk_here = K.SigningKey.from_secret_exponent(7, curve=cv)
+                sk_there = K.SigningKey.from_secret_exponent(9, curve=oc)
+                if route == "set_curve":
+                    e = ns.ecdh.ECDH(curve=cv, private_key=sk_here)
+                    e.set_curve(oc)
+                    e.load_received_public_key(sk_there.verifying_key)
+                elif route == "assign_private_key":
+                    e = ns.ecdh.ECDH(curve=oc, private_key=sk_there, public_key=sk_there.verifying_key)
+                    e.private_key = sk_here
+                else:
+                    e = ns.ecdh.ECDH(curve=cv, private_key=sk_here, public_key=sk_here.verifying_key)
+                    e.public_key = sk_there.verifying_key
+                secret = e.generate_sharedsecret_bytes()
+                ctx.violation("invalid_public_point_accepted:ecdh_object_holding_keys_of_two_curves:" + route, {"curve": cv.name, "other": oc.name, "secret_len": len(secret)}, dict(rp, route=route))
+            except Exception as e_:
+                ctx.exc(e_)
     else:
         ctx.bin("invalid_other_curve_point")
     # affine Point objects that belong to ANOTHER CurveFp (same p and a, other b = invalid-curve input; or another shipped curve)
